@@ -303,6 +303,8 @@ func reuseOp(r *fw.Rand) Op {
 			h1: map[gozxing.DecodeHintType]interface{}{gozxing.DecodeHintType_ASSUME_CODE_39_CHECK_DIGIT: true}, height: 20},
 		{name: "code128", mk: oned.NewCode128Reader, wr: oned.NewCode128Writer, format: gozxing.BarcodeFormat_CODE_128, c1: "\u00f101" + d(14), c2: from(r, "abcXYZ0123456789 -", 3+r.Intn(10)),
 			h1: map[gozxing.DecodeHintType]interface{}{gozxing.DecodeHintType_ASSUME_GS1: true}, height: 20},
+		{name: "code93", mk: oned.NewCode93Reader, wr: oned.NewCode93Writer, format: gozxing.BarcodeFormat_CODE_93, c1: from(r, "ABCDEFGHIJKLMNOPQRSTUVWXYZ0123456789-. $/+%", 3+r.Intn(14)), c2: from(r, "ABCDEFGHIJKLMNOPQRSTUVWXYZ0123456789-. $/+%", 3+r.Intn(14)),
+			h1: map[gozxing.DecodeHintType]interface{}{gozxing.DecodeHintType_TRY_HARDER: true}, height: 20},
 		{name: "upcean", mk: func() gozxing.Reader { return oned.NewMultiFormatUPCEANReader(nil) }, wr: oned.NewEAN8Writer, format: gozxing.BarcodeFormat_EAN_8, c1: d(7), c2: d(12),
 			wr2: oned.NewEAN13Writer, format2: gozxing.BarcodeFormat_EAN_13,
 			h1: map[gozxing.DecodeHintType]interface{}{gozxing.DecodeHintType_TRY_HARDER: true}, height: 20},
@@ -328,8 +330,13 @@ func reuseOp(r *fw.Rand) Op {
 		b1, _ := gozxing.NewBinaryBitmapFromImage(m1)
 		b2, _ := gozxing.NewBinaryBitmapFromImage(m2)
 		rd := sp.mk()
-		r1 := canon(rd.Decode(b1, sp.h1))
+		res1, err1 := rd.Decode(b1, sp.h1)
+		r1 := canon(res1, err1)
 		r2 := canon(rd.Decode(b2, nil))
+		// the first result is the caller's: the second read on the same instance does not change it
+		if again := canon(res1, err1); again != r1 {
+			return fmt.Sprintf("APRIORI-MISMATCH reuse/%s: the result of the first read was %s; after the same reader instance read another symbol it says %s", sp.name, clip(r1), clip(again))
+		}
 		b2f, _ := gozxing.NewBinaryBitmapFromImage(m2)
 		fresh := canon(sp.mk().Decode(b2f, nil))
 		if r2 != fresh {
